@@ -152,6 +152,8 @@ class Interp:
         from . import poly as _poly
         saved = _poly.EXPAND[0]
         _poly.EXPAND[0] = bool(self.opts.get('expand'))
+        _poly.LOWER.clear()
+        _poly.LOWER.update(self.opts.get('lower_bounds') or {})
         try:
             val = self.call_teneva(fn, [], dict(args), None, self_=self_,
                                    entry=True)
@@ -708,7 +710,71 @@ class Interp:
                         label=v.label) if v.k == 'list' else TOP('widen')
         return v
 
+    def try_decision(self, st, env):
+        """Decide simple try/except idioms: -> 'body' | 'handler' | None."""
+        if len(st.handlers) != 1 or st.finalbody:
+            return None
+        body = [x for x in st.body
+                if not (isinstance(x, ast.Assign) and
+                        isinstance(x.value, ast.Constant))]
+        if len(body) != 1:
+            return None
+        h = st.handlers[0]
+        hname = self.prog.dotted(h.type) if h.type is not None else None
+        b = body[0]
+        if hname == 'KeyError' and isinstance(b, ast.Assign) and \
+                isinstance(b.value, ast.Subscript):
+            d = self.eval(b.value.value, env)
+            k = self.eval_index(b.value.slice, env)
+            if d.k == 'dict' and k.has_const():
+                if k.c in (d.keys or {}):
+                    return 'body'
+                if d.elem is None and d.label is None:
+                    return 'handler'
+            return None
+        if hname == 'TypeError' and isinstance(b, ast.Assert):
+            for c in ast.walk(b.test):
+                if isinstance(c, ast.Call) and isinstance(c.func, ast.Name) \
+                        and c.func.id == 'len' and len(c.args) == 1:
+                    x = self.eval(c.args[0], env)
+                    if x.k in ('list', 'tuple', 'arr', 'dict', 'str'):
+                        return 'body'
+                    if x.k in ('func', 'int', 'float', 'none', 'bool'):
+                        return 'handler'
+            return None
+        if hname == 'AttributeError' and isinstance(b, ast.Return) and \
+                isinstance(b.value, ast.Attribute):
+            o = self.eval(b.value.value, env)
+            if o.k == 'obj':
+                return 'body' if b.value.attr in (o.attrs or {}) else 'handler'
+            return None
+        if hname == 'ValueError' and isinstance(b, ast.Assign) and \
+                isinstance(b.targets[0], ast.Tuple):
+            v = self.eval(b.value, env)
+            n = len(b.targets[0].elts)
+            if v.k in ('tuple', 'list') and v.items is not None:
+                return 'body' if len(v.items) == n else 'handler'
+            if v.k == 'str' and v.has_const():
+                return 'body' if len(v.c) == n else 'handler'
+            return None
+        return None
+
     def st_Try(self, st, env):
+        dec = self.try_decision(st, env)
+        if dec == 'body':
+            outs = self.exec_block(st.body, env)
+            res = []
+            for o in outs:
+                if o.kind == 'next' and st.orelse:
+                    res.extend(self.exec_block(st.orelse, o.env))
+                else:
+                    res.append(o)
+            return res
+        if dec == 'handler':
+            h = st.handlers[0]
+            if h.name:
+                env[h.name] = TOP()
+            return self.exec_block(h.body, env)
         base = dict(env)
         outs = self.exec_block(st.body, env)
         results = []
@@ -873,6 +939,15 @@ class Interp:
                             and self.weak == 0:
                         its = list(base.items)
                         its[idx.c] = v
+                    elif idx.k in ('list', 'tuple') and idx.items is not None \
+                            and all(x.k == 'int' and x.has_const() and
+                                    -len(base.items) <= x.c < len(base.items)
+                                    for x in idx.items) and v.k == 'arr' and \
+                            v.items is not None and \
+                            len(v.items) == len(idx.items) and self.weak == 0:
+                        its = list(base.items)
+                        for x, y in zip(idx.items, v.items):
+                            its[x.c] = y
                     nb.items = its
                 if base.uninit:
                     nb.uninit = base.uninit
